@@ -225,16 +225,18 @@ def impl(case):
             outputs = {v: f"A/op1/{v}" for v in case["vars"]}
             try:
                 with contextlib.redirect_stdout(io.StringIO()):
-                    res = c.run(simulation_time=case["steps"] * dt, step_size=dt, solver=case["solver"], outputs=outputs, backend="default",
+                    res = c.run(simulation_time=case["steps"] * dt, step_size=dt, sampling_step_size=case.get("store", 1) * dt,
+                                solver=case["solver"], outputs=outputs, backend="default",
                                 vectorize=False, float_precision="complex128" if case.get("init_im") else "float64", clear=False, file_name="c10run")
             except Exception as e:
                 return dict(pyr.errclass(e), stage="run")
-            assert res.shape[0] == case["steps"], res.shape
+            nrows = case["steps"] // case.get("store", 1)
+            assert res.shape[0] == nrows, res.shape
             r = {"pos": list(range(len(case["vars"]))),
-                 "out": [[pyr.frac(np.real(res[v].values[i])) for v in case["vars"]] for i in range(case["steps"])]}
+                 "out": [[pyr.frac(np.real(res[v].values[i])) for v in case["vars"]] for i in range(nrows)]}
             if case.get("init_im"):
                 assert all(np.iscomplexobj(res[v].values) for v in case["vars"]), res.dtypes
-                r["out_im"] = [[pyr.frac(np.imag(res[v].values[i])) for v in case["vars"]] for i in range(case["steps"])]
+                r["out_im"] = [[pyr.frac(np.imag(res[v].values[i])) for v in case["vars"]] for i in range(nrows)]
             return r
         if kind == "vec":
             return _impl_vec(case, dt)
@@ -546,6 +548,12 @@ def gen_run(rng):
     case = dict(kind="run", vars=vars_, init=[str(Fr(rng.randint(-4, 4), 2)) for _ in range(nv)], parnames=parnames, parinit=parinit,
                 eqs=eqs, solver=rng.choice(["euler", "heun"]), dt=str(dt), steps=rng.randint(8, 14), use_t=False)
     case["steps"] = max(2, exact_steps(case))
+    # storage cadence (sampling_step_size = store * step_size): the history must still be fed after EVERY step
+    case["store"] = rng.choice([1, 1, 2, 3, 5])
+    if case["steps"] >= 2 * case["store"]:
+        case["steps"] -= case["steps"] % case["store"]
+    else:
+        case["store"] = 1
     return case
 
 def imag_case(case):
@@ -655,12 +663,15 @@ Definition vokS (c : vcase) : bool := let '(m, st, n, dps, md, pts) := c in
   forallb (fun p : vpt => let '(t, y, pt, hp, exp) := p in rows_eqb (vspec_eval (polyhist hp) (lookup_nat st) (tab pt) (tab pt) n m md t y) exp) pts.
 Definition vg (c : vcase) : bool := let '(m, st, n, dps, md, pts) := c in
   VGUARD || forallb (fun p : vpt => let '(t, y, pt, hp, exp) := p in delays_uniform (map (fun i => nth i pt []) dps)) pts.
-Definition rcase := (scheme * model * list nat * list Qc * Qc * nat * list Qc * list (list Qc))%type.
+Fixpoint take_every (k i : nat) (l : list row) : list row :=      (* the rows stored with cadence k: indices 0, k, 2k, ... *)
+  match l with [] => [] | r :: l' => if (i mod k =? 0)%nat then r :: take_every k (S i) l' else take_every k (S i) l' end.
+Definition rcase := (scheme * model * list nat * list Qc * Qc * nat * nat * list Qc * list (list Qc))%type.
 Definition rokI (c : rcase) : bool :=
-  let '(sc, m, pos, par, dt, n, y0, exp) := c in
-  orows_eqb (run_impl sc (lookup_nat pos) (lookup_q par) (lookup_q par) m dt (fun _ => []) 1024 n y0) exp.
+  let '(sc, m, pos, par, dt, n, k, y0, exp) := c in
+  match run_impl sc (lookup_nat pos) (lookup_q par) (lookup_q par) m dt (fun _ => []) 1024 n y0 with
+  | Some rows => rows_eqb (take_every k 0 rows) exp | None => false end.
 Definition rokS (c : rcase) : bool :=
-  let '(sc, m, pos, par, dt, n, y0, exp) := c in rows_eqb (run_spec sc (lookup_nat pos) (lookup_q par) (lookup_q par) m dt n y0) exp.
+  let '(sc, m, pos, par, dt, n, k, y0, exp) := c in rows_eqb (take_every k 0 (run_spec sc (lookup_nat pos) (lookup_q par) (lookup_q par) m dt n y0)) exp.
 Definition rg1 (c : rcase) : bool := true.
 """
 
@@ -715,7 +726,7 @@ def coq_fcase(case, res):
 
 def coq_rcase(case, res):
     return (f"({'Heun' if case['solver'] == 'heun' else 'Euler'}, {c_model(case)}, {clist([cnat(p) for p in res['pos']])}, {qrow(case['parinit'])}, {cq(case['dt'])}, "
-            f"{cnat(len(res['out']))}, {qrow(case['init'])}, {clist([qrow(r) for r in res['out']])})")
+            f"{cnat(case['steps'] if res['out'] else 0)}, {cnat(case.get('store', 1))}, {qrow(case['init'])}, {clist([qrow(r) for r in res['out']])})")
 
 def coq_vcase(case, res):
     n = case["units"]
@@ -833,8 +844,8 @@ def model_outputs(ctx, case, res, tag):
             return "Spec, then Impl (rows = units):\n" + coq_eval(ctx, f"c10_show_{tag}", HEADER, body)[:5000]
         if case["kind"] == "run":
             body = (f"Definition c : rcase := {coq_rcase(case, res)}.\n"
-                    "Eval vm_compute in (let '(sc, m, pos, par, dt, n, y0, exp) := c in map (map this) (run_spec sc (lookup_nat pos) (lookup_q par) (lookup_q par) m dt n y0)).\n"
-                    "Eval vm_compute in (let '(sc, m, pos, par, dt, n, y0, exp) := c in option_map (map (map this)) (run_impl sc (lookup_nat pos) (lookup_q par) (lookup_q par) m dt (fun _ => []) 1024 n y0)).\n")
+                    "Eval vm_compute in (let '(sc, m, pos, par, dt, n, k, y0, exp) := c in map (map this) (run_spec sc (lookup_nat pos) (lookup_q par) (lookup_q par) m dt n y0)).\n"
+                    "Eval vm_compute in (let '(sc, m, pos, par, dt, n, k, y0, exp) := c in option_map (map (map this)) (run_impl sc (lookup_nat pos) (lookup_q par) (lookup_q par) m dt (fun _ => []) 1024 n y0)).\n")
         else:
             body = (f"Definition c : fcase := {coq_fcase(case, res)}.\n"
                     "Eval vm_compute in (let '(mi, m, g, pos, md, pts) := c in map (fun p : pt => let '(t, y, par, hp, exp) := p in map this (spec_eval (polyhist hp) (lookup_nat pos) (lookup_q par) (lookup_q par) m md t y)) pts).\n"
@@ -868,7 +879,8 @@ def shrink(ctx, case):
             if attempt(dict(best, points=[p])):
                 break
     if best["kind"] == "run":
-        while best["steps"] > 2 and attempt(dict(best, steps=best["steps"] - max(1, best["steps"] // 3))):
+        k = best.get("store", 1)
+        while best["steps"] > 2 * k and attempt(dict(best, steps=max(k, (best["steps"] - max(1, best["steps"] // 3)) // k * k))):
             pass
     if best["kind"] != "edge":
         progress = True
@@ -955,6 +967,7 @@ def check(ctx):
                 hist_passed_as_keyword=sum(1 for c in cases if c.get("hist_kwarg")),
                 fixed_step_edge_circuits=sum(1 for c in cases if c["kind"] == "edge" and c["solver"] == "euler"),
                 complex_valued_runs=sum(1 for c in cases if c.get("init_im")),
+                runs_by_storage_cadence={k: sum(1 for c in cases if c["kind"] == "run" and c.get("store", 1) == k) for k in (1, 2, 3, 5)},
                 heun_runs=sum(1 for c in cases if c["kind"] == "run" and c["solver"] == "heun"),
                 adaptive_runs=dict(cases=sum(1 for c in cases if c["kind"] == "adapt"),
                                    lookups=sum(o.get("bookkeeping", {}).get("lookups", 0) for o in outs if isinstance(o.get("bookkeeping"), dict)),
